@@ -1172,8 +1172,15 @@ impl ValueTable {
 		log: &impl LogQuery,
 		mut f: impl FnMut(u64, u32, Vec<u8>, bool) -> bool,
 	) -> Result<()> {
+		// Entries that are logged but not enacted yet lie beyond `written` and only exist in the
+		// log overlay, which `for_parts` consults first: they are part of the iteration, like the
+		// logged changes to entries below `written` are.
 		let written = self.written.load(Ordering::Relaxed);
-		for index in 1..written {
+		let filled = self.filled.load(Ordering::Relaxed);
+		for index in 1..std::cmp::max(written, filled) {
+			if index >= written && log.value_ref(self.id, index).is_none() {
+				continue
+			}
 			let mut result = Vec::new();
 			// expect only indexed key.
 			let mut _fetch_key = Default::default();
